@@ -96,6 +96,14 @@ PortfolioSplit(g, p) ==           \* setup_split_optim_problem: interval grids, 
   /\ lastop' = "split"
   /\ depth' = depth + 1 /\ UNCHANGED saved
 
+CostSamples(g) ==                 \* portfolio.create_cost_samples(all price sets, g): cost vectors only -- the route of robust /
+  /\ depth < MaxDepth              \* stochastic optimisation; every asset is set up on g exactly as in PortfolioSetup
+  /\ pgrid' = g
+  /\ agrid' = [a \in Assets |-> g]
+  /\ rest'  = [rest EXCEPT ![g] = LastAsset]
+  /\ form'  = Forms(DictAssets, g)
+  /\ depth' = depth + 1 /\ UNCHANGED <<lastop, saved>>
+
 \* Optimising the last portfolio problem is a function of that problem alone.  The output tables (extract_output) are
 \* computed from the problem, the result AND the asset objects; they are specified only while every asset still refers
 \* to the grid the problem was built on (an asset set up on another grid in between describes another problem: the
@@ -115,6 +123,7 @@ Next == \/ \E a \in Assets, g \in Grids, p \in Prices : AssetSetup(a, g, p)
         \/ \E g \in Grids, p \in Prices : PortfolioSetup(g, p)
         \/ \E p \in Prices : PortfolioSetupNoGrid(p)
         \/ \E g \in Grids, p \in Prices : PortfolioSplit(g, p)
+        \/ \E g \in Grids : CostSamples(g)
         \/ Optimize
         \/ \E a \in Assets : SaveLoad(a)
 Spec == Init /\ [][Next]_vars
